@@ -279,6 +279,45 @@ def corpus_findings(pid, suite, detectors):
     return extra
 
 
+RENAME_WITNESS = ('(strong_rename_issues ((rule (basic ("p" ())) ()) (rule (basic ("q" ())) ((cmp lt (sym "tp_") (sym "tp"))))) '
+                  '((rule (basic ("p" ())) ()) (rule (basic ("q" ())) ())) sequential universal tau_star false false 64)')
+
+
+def c03_extra(tier, seed, outdir, broken, violations, findings_seen):
+    """Strong-equivalence cases in which rename_conflicting_symbols changes the order of symbolic constants (model-side
+    analysis of the assembled problems): a known finding; the fixed witness runs first, through the real CLI as well."""
+    import cli, tempfile
+    known = {k["class"]: k for k in load_known("C03") if "class" in k}
+    reqs = (outdir / "strong.req").read_text().splitlines()
+    qs = [RENAME_WITNESS] + [r.replace("(strong ", "(strong_rename_issues ", 1) for r in reqs]
+    answers = ask_driver(qs)
+    hits = [i for i, a in enumerate(answers) if a.startswith("((")]
+    stats = {"evaluations": len(qs), "distinct_nontrivial": len(hits), "cases_with_order_changing_renaming": len(hits),
+             "samples": [f"{qs[i][:160]} ... -> {answers[i][:80]}" for i in hits[:2]]}
+    # the witness on the implementation: the emitted problem orders tp_ below the renamed tp__s
+    ok, log = cli.build_cli()
+    if ok:
+        with tempfile.TemporaryDirectory(dir=str(outdir)) as tmp:
+            t = Path(tmp)
+            (t / "l.lp").write_text("p.\nq :- tp_ < tp.\n")
+            (t / "r.lp").write_text("p.\nq.\n")
+            (t / "out").mkdir()
+            subprocess.run([str(cli.ANTHEM), "verify", "--equivalence", "strong", "--no-proof-search", "--no-timing", "--save-problems", str(t / "out"),
+                            str(t / "l.lp"), str(t / "r.lp")], stdout=subprocess.PIPE, stderr=subprocess.PIPE, timeout=120)
+            texts = "".join(f.read_text() for f in sorted((t / "out").glob("*.p")))
+            impl_witness = "p__less__(f__symbolic__(tp_), f__symbolic__(tp__s))" in texts
+            stats["implementation_witness_reproduced"] = impl_witness
+    else:
+        broken.append({"kind": "cli-build", "detail": log})
+        impl_witness = False
+    if hits or impl_witness:
+        if "symbol-renaming-changes-order" in known:
+            findings_seen.append(known["symbol-renaming-changes-order"]["what"])
+        else:
+            violations.append({"property": "C03", "kind": "rename_conflicting_symbols changes the order of symbolic constants", "request": qs[hits[0]] if hits else RENAME_WITNESS})
+    return stats
+
+
 def c10_extra(tier, seed, outdir, broken, violations, findings_seen):
     import cli
     ok, log = cli.build_cli()
@@ -456,6 +495,7 @@ PROPS = {
     },
     "C03": {
         "suites": [("strong", 400, 8000)],
+        "extra": c03_extra,
         "rule": "seeded program pairs x {independent, sequential} x {universal, forward, backward} x {mu, tau-star} x simplify x eq-break; StrongEquivalenceTask::decompose "
                 "vs Lean `strongProblems`: problem names, formula names, roles and formula trees all equal",
         "level_text": "Full for the tau-star representation (all decompositions, directions, simplify and eq-break flags): strong_refutes - some emitted problem is refuted by the "
